@@ -387,6 +387,28 @@ class SArr(np.ndarray):
         return np.ndarray.astype(self, dtype, *a, **k)
 
 
+class CplxSym(SArr):
+    """symbolic stand-in for a complex128 ndarray: `ri` is the interleaved (re, im) flat buffer that C code sees"""
+
+    def __array_finalize__(self, obj):
+        self.ri = getattr(obj, "ri", None)
+
+    @property
+    def ctypes(self):
+        return _CT(self.ri)
+
+
+def cplx_sym(shape, ri=None):
+    a = np.empty(shape, dtype=object).view(CplxSym)
+    a[...] = S(ZERO)
+    n = int(np.prod(shape)) if len(shape) else 1
+    if ri is None:
+        ri = np.empty((2 * n,), dtype=object).view(SArr)
+        ri[...] = S(ZERO)
+    a.ri = ri
+    return a
+
+
 def as_sarr(a):
     if isinstance(a, np.ndarray) and a.dtype == object and not isinstance(a, SArr):
         return a.view(SArr)
